@@ -342,3 +342,56 @@ def R5_eq(body, ctx):
         mask = code_mask(body)
         n += 1
     return body, n
+
+
+def ASSERT_MACRO(body, ctx):
+    """`assert!(C, "fmt", args..);` / `assert!(C);` -> `if !(C) { panic!(); }` (what the macro expands to;
+    the message is dropped - message arguments are evaluated only on the panic path)."""
+    mask = code_mask(body)
+    n = 0
+    while True:
+        m = None
+        for mm in re.finditer(r'(?<![A-Za-z0-9_])assert!\s*\(', body):
+            if mask[mm.start()]:
+                m = mm
+                break
+        if not m:
+            break
+        po = m.end() - 1
+        pc = match_close(body, po, mask)
+        inner = body[po + 1:pc]
+        mc = find_top(inner, r',')
+        cond = inner[:mc.start()] if mc else inner
+        k = pc + 1
+        while k < len(body) and body[k] in ' \t\n':
+            k += 1
+        if k < len(body) and body[k] == ';':
+            k += 1
+        body = body[:m.start()] + 'if !(%s) { panic!(); }' % cond.strip() + body[k:]
+        mask = code_mask(body)
+        n += 1
+    return body, n
+
+
+def PANIC_ARGS(body, ctx):
+    """`panic!("fmt", args..)` -> `panic!()`: the message and its arguments (evaluated only on the panic
+    path, which the contract shows unreachable) are dropped."""
+    mask = code_mask(body)
+    n = 0
+    pos = 0
+    while True:
+        m = None
+        for mm in re.finditer(r'(?<![A-Za-z0-9_])panic!\s*\(', body):
+            if mask[mm.start()] and mm.start() >= pos:
+                m = mm
+                break
+        if not m:
+            break
+        po = m.end() - 1
+        pc = match_close(body, po, mask)
+        if body[po + 1:pc].strip():
+            body = body[:po + 1] + body[pc:]
+            mask = code_mask(body)
+            n += 1
+        pos = m.end()
+    return body, n
